@@ -2,7 +2,9 @@ SPECIFICATION Spec
 INVARIANT Sane
 INVARIANT NoException
 INVARIANT AfterWellFormed
-INVARIANT NamesKept
+INVARIANT PortNamesKept
+INVARIANT StateNamesKept
+INVARIANT StateOrderKept
 INVARIANT Resolved
 INVARIANT OnlyForksAdded
 INVARIANT FuncKept
